@@ -28,6 +28,7 @@ type filePeer struct {
 	closed     bool
 	reorders   int
 	emptyData  bool // answer READ with empty DATA (never at EOF)
+	failClose  uint32 // non-zero: CLOSE is answered with this status code
 }
 
 func (p *filePeer) attrsBody() []byte {
@@ -62,6 +63,9 @@ func (p *filePeer) handle(fr *rawResp) []byte {
 	case fxpClose:
 		p.closes++
 		p.closed = true
+		if p.failClose != 0 {
+			return status(p.failClose) // the server closed the handle but reports a failure (e.g. a deferred write error)
+		}
 		return status(0)
 	case fxpStat, fxpLstat, fxpFstat:
 		if fr.Typ == fxpFstat && p.closed {
